@@ -2,8 +2,9 @@
 (specs/Mmap.tla).
 
 `vh mmap-run` creates and drops buffers in random orders from several threads
-(sizes k*page and non-multiples, element sizes 1 and 4, mapping failures forced
-with RLIMIT_AS) under strace; the system call log is projected to ndjson
+(sizes k*page and non-multiples, element sizes 1 .. 16384, mapping failures forced
+with RLIMIT_AS and, call by call, with strace's system call fault injection: the
+first and the MAP_FIXED second mapping of a set-up each made to fail) under strace; the system call log is projected to ndjson
 (addresses -> (region id, offset)) and judged by TLC against Mmap_Trace:
 every successful new leaves exactly two halves mapping file offset 0 and a
 closed descriptor, every failed new leaves nothing, every drop unmaps exactly
@@ -33,7 +34,7 @@ def gen_script(rnd, nops, threads, big=False, alias_all=False):
                 size = 4096 * rnd.randint(1, 6)
             if big:
                 size = 4096 * rnd.choice([4096, 8192, 16384])   # 16..64 MiB: fails under RLIMIT_AS
-            elem = rnd.choice([1, 1, 4, 1, 4, 3, 6, 8, 12, 24, 4096])
+            elem = rnd.choice([1, 1, 4, 1, 4, 3, 6, 8, 12, 24, 4096, 8192, 16384])
             ops.append([rnd.randrange(threads), "new", slot, size, elem])
             if size % 4096 == 0:
                 live.append((slot, size, elem))
@@ -129,14 +130,32 @@ def project(strace_path, out_events, tf):
     return evs, hv
 
 
-def one_run(ctx, name, script):
+def one_run(ctx, name, script, inject=None):
+    """inject = k: the k-th mmap call of every thread fails with ENOMEM (strace
+    fault injection; used with a single-threaded script, see inject_runs)."""
     sf, of, st, tf = (ctx.path(f"{name}.{x}") for x in ("json", "out", "strace", "ndjson"))
     with open(sf, "w") as f:
         json.dump(script, f)
-    cmd = ["strace", "-f", "-o", st, "-e", "trace=openat,ftruncate,mmap,munmap,close", vlib.VH, "mmap-run", "--script", sf, "--out", of]
+    cmd = ["strace", "-f", "-o", st, "-e", "trace=openat,ftruncate,mmap,munmap,close"]
+    if inject:
+        cmd += ["-e", f"inject=mmap:error=ENOMEM:when={inject}"]
+    cmd += [vlib.VH, "mmap-run", "--script", sf, "--out", of]
+    if os.path.exists(st):
+        os.remove(st)
     r = subprocess.run(cmd, stdout=subprocess.PIPE, stderr=subprocess.PIPE, text=True, timeout=900)
     if r.returncode != 0:
-        raise vlib.ToolError(f"strace run failed: {r.stderr[-500:]}")
+        # the traced program died (abort inside the code under test, e.g. a panic in a
+        # destructor): that is data, not a tool problem, as long as strace itself worked
+        log = open(st).read() if os.path.exists(st) else ""
+        m = re.search(r'\+\+\+ (killed by \w+|exited with [1-9]\d*)', log)
+        if not m:
+            raise vlib.ToolError(f"strace run failed: {r.stderr[-500:]}")
+        last = [e for e in (json.loads(l) for l in open(of)) ] if os.path.exists(of) else []
+        rp = ctx.path("mmap-replay.json")
+        with open(rp, "w") as f:
+            json.dump({"script": script, "inject": inject, "failed": "process_aborted", "event": {"how": m.group(1), "stderr": r.stderr[-300:]}}, f)
+        ctx.violation("process_aborted", f"process_aborted ({m.group(1)}) after {len(last)} operations: {r.stderr.strip()[-200:]} (script {name})", replay_src=rp)
+        return [], [], 0
     evs, hv = project(st, of, tf)
     cfg = ctx.path(f"{name}.cfg")
     with open(cfg, "w") as f:
@@ -156,9 +175,69 @@ def one_run(ctx, name, script):
     for label, ev in fails:
         rp = ctx.path("mmap-replay.json")
         with open(rp, "w") as f:
-            json.dump({"script": script, "failed": label, "event": ev}, f)
+            json.dump({"script": script, "inject": inject, "failed": label, "event": ev}, f)
         ctx.violation(f"{label}", f"{label} at {json.dumps(ev)[:300]} (script {name})", replay_src=rp)
     return evs, hv, nsys
+
+
+def shared_mmaps(st):
+    """(ordinal among the main thread's mmap calls, fixed?, injected?) of every
+    buffer mapping call (MAP_SHARED with a descriptor) in a strace log."""
+    out, n, main = [], 0, None
+    for line in open(st):
+        m = LINE.match(line.strip())
+        if not m:
+            continue
+        pid, call, args, ret, rest = m.groups()
+        main = main or pid
+        if call != "mmap" or pid != main:
+            continue
+        n += 1
+        a = [x.strip() for x in args.split(",")]
+        if "MAP_SHARED" in a[3] and int(a[4]) >= 0:
+            out.append((n, "MAP_FIXED" in a[3], "INJECTED" in rest))
+        elif "INJECTED" in rest:
+            out.append((n, None, True))
+    return out
+
+
+def inject_runs(ctx, th):
+    """Mapping failures at every stage of the set-up: the whole script runs in
+    the main thread; a first pass finds the ordinals of the buffer mapping
+    calls, then each chosen one is failed with ENOMEM by strace."""
+    shapes = [(4096, 1), (12288, 4), (65536, 8), (8192, 1), (4096 * 5, 4096), (16384, 8192)]
+    ops = [[0, "mark", 0]]
+    for k, (size, elem) in enumerate(shapes):
+        ops += [[0, "new", 200 + k, size, elem], [0, "drop", 200 + k]]
+    ops.append([0, "mark", 1])
+    script = {"threads": 0, "rlimit_as": 0, "ops": ops}
+    evs, hv, nsys = one_run(ctx, "inj-base", script)
+    if ctx.violations:
+        return 0
+    calls = shared_mmaps(ctx.path("inj-base.strace"))
+    if len(calls) != 2 * len(shapes) or [c[1] for c in calls] != [False, True] * len(shapes):
+        raise vlib.ToolError(f"unexpected buffer mapping calls in the calibration pass: {calls}")
+    targets = calls if th else calls[:4] + calls[-2:]
+    nfirst = nfixed = 0
+    for (k, fixed, _) in targets:
+        evs, hv, n = one_run(ctx, f"inj-{k}", script, inject=k)
+        if not evs:
+            continue
+        inj = [c for c in shared_mmaps(ctx.path(f"inj-{k}.strace")) if c[2]]
+        if len(inj) != 1 or inj[0][1] != fixed:
+            raise vlib.ToolError(f"fault injection at mmap #{k} hit {inj} instead of one buffer mapping call")
+        failed = [e for e in hv if e["ev"] == "new" and e["result"] != "ok"]
+        if len(failed) != 1:
+            # the call failed but the stream reports success (or several fail): judged by the
+            # spec where it can (halves_not_aliased); make sure it is never silent
+            rp = ctx.path("mmap-replay.json")
+            with open(rp, "w") as f:
+                json.dump({"script": script, "inject": k, "failed": "failed_mapping_not_reported", "event": {"failed": failed}}, f)
+            ctx.violation("failed_mapping_not_reported", f"failed_mapping_not_reported: mmap #{k} ({'fixed' if fixed else 'first'}) failed, creations reporting an error: {len(failed)}", replay_src=rp)
+        nfirst += 0 if fixed else 1
+        nfixed += 1 if fixed else 0
+    ctx.notes.append(f"system call fault injection: first mapping failed in {nfirst} runs, MAP_FIXED second mapping failed in {nfixed} runs; each judged against Mmap_Trace (nothing left, nothing unmapped twice, error reported)")
+    return nfirst + nfixed
 
 
 def run(ctx):
@@ -189,6 +268,7 @@ def run(ctx):
                 raise vlib.ToolError("RLIMIT_AS did not force any mapping failure")
         if name == "rand0":
             ctx.sample({"ops": script["ops"][:12], "events": evs[:12]})
+    inject_runs(ctx, th)
     # binding self-test: a trace with one munmap removed must be flagged
     if not ctx.violations:
         lines = open(ctx.path("rand0.ndjson")).read().splitlines()
@@ -219,6 +299,6 @@ def run(ctx):
 def replay(ctx, path):
     vlib.build_harness()
     d = json.load(open(path))
-    evs, hv, n = one_run(ctx, "replay", d["script"])
+    evs, hv, n = one_run(ctx, "replay", d["script"], inject=d.get("inject"))
     ctx.cleanup()
     return 1 if ctx.violations else 0
